@@ -34,10 +34,10 @@ TRUSTED = [
     "models lean/Model/Constraint.lean (fitness() of every constraint class; tied by C07's and this run's "
     "correspondence) and lean/Model/EmitExact.lean (_evaluate_constraints + acceptance test in EXACT rational "
     "arithmetic; tied by the stub-driven differential of the real evaluate_individual)",
-    "binary64: the theorem is about the exact reading of the fitness formula; the float computation is related by "
-    "C03's theorems (all satisfied => exactly 1.0), a decide-checked finite table (C02_float_formula_agrees_on_table) "
-    "and the per-run differential with per-constraint totals <= 2^20 (above ~2^52 combinations the float mean can "
-    "round up to 1.0)",
+    "binary64: proved for the GENERATED formula over Model/Float53 (round-to-nearest-even over exact rationals, no "
+    "subnormals/overflow) under (h+r)*2^B <= 2^50, 2^B >= every per-constraint denominator (C02_accept_iff_float, "
+    "C02_emit_sound_float; C02_float_bound_is_needed: a total of 2^53 defeats it); the float model is tied "
+    "bit-exactly to CPython by C03's operand / evaluator correspondence and this run's stub differential",
     "translators harness/translate_cons.py, harness/translate_fitness.py",
     "RepetitionBoundsConstraint: fitness modelled as a function of the repetition groups found; finding the groups "
     "(origin tags) is not modelled — emitted trees are judged by an oracle computed from the output string",
